@@ -620,11 +620,11 @@ class C09(Property):
         '"exact": the theorems are exact over a field; the real code is float64 and is compared to 1e-12 relative (1e-9 for polyval/polyfit/logspace) — rounding is not modelled',
         'the (factor, exponent vector) of every `quantities` unit (its unit tables, prefix factors, constants eV and N_A): read or hand-written, never proved; '
         'a wrong table entry is caught by the correspondence (harness table vs real objects) and own_units_physical only for chempy\'s own definitions; per100eV: dimension only',
-        'human-readable round trip: that the unit-string parser of quantities resolves the plain symbol of EVERY standard prefixed unit to a unit of the same value '
-        '(hypothesis of human_readable_roundtrip) is checked by the oracle on the units of the harness table only',
+        'human-readable round trip: closed theorem (human_readable_roundtrip_standard) for the 28 standard prefixed units of the extracted table (m…km, kg/g/mg, s…d, A…nA, K/mK/uK, cd, mol/mmol/umol); '
+        'other units (pm: quantities stores 1.0000000000000002e-12; chempy\'s own micromole/nanomole, which need chempy imported to parse) stay with the parameterised theorem + oracle',
         'get_physical_dimensionality / default_unit_in_registry / unitless_in_registry on dicts: the code only supports unitless dicts (theorem: {} / AttributeError); nested containers: not modelled',
         'magnitudes stored in float16/float32/integer dtypes: covered by the correspondence and the exact-ratio oracle at float64 precision (stream `_g_dtype`); the model has no notion of dtype',
-        'unit_of on dicts; Backend/patched_numpy with CONTAINER arguments (scalar arguments have theorems); composition/linearity for NESTED containers (flat containers: compose_linear_containers); uncertainty(), '
+        'unit_of on dicts; composition/linearity for NESTED containers (flat containers: compose_linear_containers; Backend with container arguments: backend_container_arguments); uncertainty(), '
         'latex/unicode/html_of_unit, format_string, fold_constants, simplified(): not modelled',
         'compare_equality is not among the helpers the statement lists: two quantities / two numbers have a theorem, quantity vs plain number a quirk witness; None, str, lists, '
         'tuples and dicts are mirrored by the model (compareEqualityC; dicts are compared by their keys only) and compared by the correspondence, no oracle claim, no theorem',
@@ -632,10 +632,10 @@ class C09(Property):
         'dimensionless one; lemma toUnitless_iterable), correspondence only, no oracle claim',
         'from_human_readable of hand-edited entries whose symbol carries an exponent (m**2, 1/s): the exponent is dropped (mirrored, correspondence only); accept/refuse has a theorem',
         'Backend: a non-callable attribute (be.pi) is handed through unchanged — oracle only (no unit logic to model)',
-        'allclose with atol when a plain number is involved; allclose on Python lists (mirrored, correspondence + oracle); allclose on 2-d arrays is reduced to 1-d by the harness '
+        'allclose with atol when a plain number is MIXED with quantities (all-plain: helpers_allclose_plain_numbers; all quantities: helpers_allclose_atol); allclose on Python lists (mirrored, correspondence + oracle); allclose on 2-d arrays is reduced to 1-d by the harness '
         '(the model and helpers_allclose_arrays are 1-d with broadcasting); an array atol larger than `a` (ValueError of the in-place `lim += atol`, reported) is accepted either way',
         'n-d shapes of linspace/logspace_from_lin/tile/concatenate/uniform/polyval/polyfit (array end points, reps tuples, axis=, 2-d x or y): oracle only (`shape_helper`), the model of these helpers is 1-d',
-        'polyval with a list/array x (element-wise use of the scalar theorem; correspondence + oracle); polyfit: scaling covariance of np.polyfit itself is a hypothesis of '
+        'polyval with a 2-d x (1-d list/array x: helpers_equivariant_polyval_array); polyfit: scaling covariance of np.polyfit itself is a hypothesis of '
         'helpers_polyfit_unit_independent (oracle compares with the fit of the SI magnitudes)',
         'logspace_from_lin: theorem over the reals for positive end points; the Float instantiation is compared to 1e-9',
         'a target unit of magnitude 0 (inf/nan in Python): outside the property; the model returns the token NonFinite (correspondence only), all theorems assume u.si != 0',
@@ -657,6 +657,8 @@ class C09(Property):
         for name in sorted(DIM_CONST_SPEC):
             cases.append({'op': 'dim_constant', 'name': name})
         cases.append({'op': 'si_registry'})
+        for name in ('L', 'mL', 'J', 'cal', 'N', 'Pa', 'kPa', 'bar', 'W', 'C', 'V', 'mV', 'Hz', 'mK'):
+            cases.append({'op': 'named_unit', 'name': name})
         for key in sorted(DERIVED_SPEC) + KEYS + ['foo']:
             cases.append({'op': 'get_derived_unit', 'reg': [{'mag': 1.0, 'u': [[BY_DIM[i][0], 1]]} for i in range(7)], 'key': key})
             cases.append({'op': 'get_derived_unit', 'reg': _registry(rng), 'key': key})
@@ -1273,6 +1275,18 @@ class C09(Property):
                 args.append({'mag': float(rng.randint(-4, 4)) / 4, 'u': us})
             else:
                 args.append(_q(rng))
+        if rng.random() < 0.3:          # container arguments (lists, arrays, a dict) as in `be.sum([[1000*m/km, 1], [3, 4]], axis=1)`
+            k = rng.randint(1, 3)
+            shape = rng.choice(['list', 'nested', 'array', 'dict'])
+            if shape == 'list':
+                cargs = [{'l': args}]
+            elif shape == 'nested':
+                cargs = [{'l': [{'l': [dict(a) for a in args[:1]] * k}, {'l': [{'num': float(i)} for i in range(k)]}]}]
+            elif shape == 'array':
+                cargs = [{'arr': {'mags': [float(rng.randint(-3, 3)) for _ in range(k)], 'u': rng.choice([[['km', 1], ['m', -1]], [], [['s', 1]]])}}, args[0]]
+            else:
+                cargs = [{'k': [['a', args[0]], ['b', {'l': args}]]}]
+            return {'op': 'backend_v', 'fn': 'sum', 'args': cargs}
         return {'op': 'backend', 'fn': rng.choice(['exp', 'sin', 'atan']), 'args': args}
 
     # ------------------------------------------------------------------------------------------------ model cases
@@ -1391,7 +1405,9 @@ class C09(Property):
             m['_scale'] = [ymax / xmax ** (c['deg'] - i) for i in range(c['deg'] + 1)]
         elif op == 'backend':
             m['args'] = [_mj(x) for x in c['args']]
-        elif op in ('own_unit', 'dim_constant'):
+        elif op == 'backend_v':
+            m['args'] = [_mj_val(x) for x in c['args']]
+        elif op in ('own_unit', 'named_unit', 'dim_constant'):
             m['name'] = c['name']
         return m
 
@@ -1497,7 +1513,12 @@ class C09(Property):
             be = cu.Backend(type('M', (), {c['fn']: staticmethod(lambda *a: rec.extend(a) or 0.0)})())
             getattr(be, c['fn'])(*[_real(x) for x in c['args']])
             return J_([_jf(x) for x in rec])
-        if op == 'own_unit':
+        if op == 'backend_v':
+            rec = []
+            be = cu.Backend(type('M', (), {c['fn']: staticmethod(lambda *a: rec.extend(a) or 0.0)})())
+            getattr(be, c['fn'])(*[_real_val(x) for x in c['args']])
+            return J_([_res(x) for x in rec])
+        if op in ('own_unit', 'named_unit'):
             q = getattr(cu.default_units, c['name']).simplified
             d = [0] * 7
             for bo, be_ in q.dimensionality.items():
@@ -2029,7 +2050,23 @@ class C09(Property):
                     return 'patched_numpy.exp(%r) = %r, exp of the plain value = %r' % (x0, got, math.exp(float(_si(x0))))
             return None
 
-        if op == 'own_unit':
+        if op == 'backend_v':
+            rec = []
+            be = cu.Backend(type('M', (), {c['fn']: staticmethod(lambda *a: rec.extend(a) or 0.0)})())
+            call = lambda: getattr(be, c['fn'])(*[_real_val(x) for x in c['args']])
+            lv = [x for a in c['args'] for x in _leaves(a)]
+            if any(any(_book(x)[2]) for x in lv):
+                f = self._raises(call)
+                return 'wrapped function was called although an argument carries a dimension' if (f is None and rec) else f
+            call()
+            got = [y for r in rec for y in self._flat(r)]
+            if len(got) != len(lv):
+                return 'Backend passed %d numbers for %d leaves' % (len(got), len(lv))
+            for x, g in zip(lv, got):
+                if hasattr(g, 'dimensionality') or not ok(g, _si(x)):
+                    return 'Backend passed %r for the dimensionless value %r' % (g, float(_si(x)))
+            return None
+        if op in ('own_unit', 'named_unit'):
             f, d = UNITS()[c['name']]
             x = 1 * getattr(cu.default_units, c['name'])
             s = x.simplified
